@@ -33,6 +33,11 @@ Inductive op :=
 | OpMoveAssign (d s : nat)
 | OpSwap (a b : nat)
 | OpJunk (b : Z)
+| OpRefAssign (d : nat) (i : Z) (s : nat) (j : Z) (mv : bool)   (* d[i] = s[j] (copy / move) *)
+| OpRefSwap (a : nat) (i : Z) (b : nat) (j : Z)                 (* swap(a[i], b[j]) *)
+| OpWrite (s : nat) (i : Z) (k : nat) (o : Z) (bs : list Z)     (* object o of field k of s[i] := bytes *)
+| OpAlgo (kind : nat) (s : nat) (a b c : Z) (s2 : nat)          (* 0 rotate, 1 reverse, 2 swap_ranges *)
+| OpIter (s : nat) (i j : Z)                                    (* iterator expressions *)
 | OpCmpVec (a b : nat)                 (* all six operators between two vectors *)
 | OpCmpRef (a : nat) (i : Z) (b : nat) (j : Z)   (* ... between element references a[i], b[j] *)
 | OpObserve (s : nat).
@@ -46,6 +51,7 @@ Inductive obs :=
 | OEv (e : ev)
 | ORes (r : Z)                                     (* returned index / boolean *)
 | OCmp (r : list bool)                             (* == != < <= > >= *)
+| OIter (r : list Z)
 | ONull (s : nat) (size : Z)                       (* vector without memory: size() only *)
 | OVec (s : nat) (size cap consumption aid : Z) (bid : nat) (dbeg dend : Z) (fixed : list Z)
        (elems : list oelem)
@@ -197,6 +203,20 @@ Definition swap_vec (K : akind) (a b : vec) : vec * vec :=
        v_tbl := v_tbl y; v_last := v_last y |} in
   (mk a b, mk b a).
 
+(* a sequence of reference swaps between two vectors (or within one) *)
+Fixpoint swaps (L : list param) (same : bool) (va vb : vec) (pairs : list (Z * Z)) : vec * vec :=
+  match pairs with
+  | [] => (va, vb)
+  | (i, j) :: r =>
+      let '(va1, vb1, _) := ref_swap L same va i vb j in
+      swaps L same va1 (if same then va1 else vb1) r
+  end.
+(* std::reverse(begin + a, begin + c): iter_swap of the outermost pairs *)
+Definition rev_pairs (a c : Z) : list (Z * Z) :=
+  map (fun t => (a + Z.of_nat t, c - 1 - Z.of_nat t)) (seq 0 (Z.to_nat ((c - a) / 2))).
+Definition range_pairs (a b c : Z) : list (Z * Z) :=
+  map (fun t => (a + Z.of_nat t, c + Z.of_nat t)) (seq 0 (Z.to_nat (b - a))).
+
 Definition step (K : akind) (L : list param) (w : world) (o : op) : world :=
   let junk := mfill (w_junk w) in
   let nb := w_nb w in
@@ -257,6 +277,37 @@ Definition step (K : akind) (L : list param) (w : world) (o : op) : world :=
         let w1 := setv (setv w a (Some va) [] nb) b (Some vb) [] nb in
         emit w1 [obs_vec L a w1; obs_vec L b w1]
   | OpJunk b => set_junk w b
+  | OpRefAssign d i s j mv =>
+      let same := Nat.eqb d s in
+      let '(vd, vs, e) := ref_assign mv L same (getv w d) i (getv w s) j in
+      let w1 := setv (setv w s (Some vs) [] nb) d (Some vd) e nb in
+      emit w1 (obs_vec L d w1 :: (if same then [] else [obs_vec L s w1]))
+  | OpRefSwap a i b j =>
+      let same := Nat.eqb a b in
+      let '(va, vb, e) := ref_swap L same (getv w a) i (getv w b) j in
+      let w1 := setv (setv w b (Some vb) [] nb) a (Some va) e nb in
+      emit w1 (obs_vec L a w1 :: (if same then [] else [obs_vec L b w1]))
+  | OpWrite s i k o bs =>
+      let v := getv w s in
+      let a := fst (nth k (vfl L v i) fld0) + o * psz (nth k L pparam0) in
+      let w1 := setv w s (Some (set_mem v (mwrite (v_mem v) a bs))) [] nb in
+      emit w1 [obs_vec L s w1]
+  | OpAlgo kind s a b c s2 =>
+      let v := getv w s in
+      match kind with
+      | O => (* rotate(a, b, c): same result as reverse [a,b), reverse [b,c), reverse [a,c) *)
+          let '(v1, _) := swaps L true v v (rev_pairs a b ++ rev_pairs b c ++ rev_pairs a c) in
+          let w1 := setv w s (Some v1) [] nb in emit w1 [obs_vec L s w1]
+      | S O =>
+          let '(v1, _) := swaps L true v v (rev_pairs a c) in
+          let w1 := setv w s (Some v1) [] nb in emit w1 [obs_vec L s w1]
+      | _ =>
+          let same := Nat.eqb s s2 in
+          let '(v1, v2) := swaps L same v (getv w s2) (range_pairs a b c) in
+          let w1 := setv (setv w s2 (Some v2) [] nb) s (Some v1) [] nb in
+          emit w1 (obs_vec L s w1 :: (if same then [] else [obs_vec L s2 w1]))
+      end
+  | OpIter s i j => emit w [OIter (iter_battery i j (vsize L (getv w s)))]
   | OpCmpVec a b => emit w [OCmp (cmp_vecs L (getv w a) (getv w b))]
   | OpCmpRef a i b j => emit w [OCmp (cmp_refs L (getv w a) i (getv w b) j)]
   | OpObserve s => emit w [obs_vec L s w]
